@@ -377,6 +377,11 @@ pub fn validate_multiline_text(
                 ),
             });
         }
+        if line.is_empty() {
+            return Err(ParseError::InvalidFormat {
+                message: format!("{} line {} is empty", field_name, i + 1),
+            });
+        }
         parse_swift_chars(line, &format!("{} line {}", field_name, i + 1))?;
         result.push(line.to_string());
     }
@@ -401,6 +406,11 @@ pub fn parse_name_and_address(
                     field_name,
                     i - start_idx + 1
                 ),
+            });
+        }
+        if line.is_empty() {
+            return Err(ParseError::InvalidFormat {
+                message: format!("{} line {} is empty", field_name, i - start_idx + 1),
             });
         }
         parse_swift_chars(line, &format!("{} line {}", field_name, i - start_idx + 1))?;
@@ -432,11 +442,7 @@ pub fn parse_multiline_text(
     max_lines: usize,
     max_line_length: usize,
 ) -> Result<Vec<String>, ParseError> {
-    let lines: Vec<String> = input
-        .lines()
-        .map(|s| s.to_string())
-        .filter(|s| !s.is_empty())
-        .collect();
+    let lines: Vec<String> = input.lines().map(|s| s.to_string()).collect();
 
     if lines.len() > max_lines {
         return Err(ParseError::InvalidFormat {
@@ -456,6 +462,11 @@ pub fn parse_multiline_text(
                     i + 1,
                     max_line_length
                 ),
+            });
+        }
+        if line.is_empty() {
+            return Err(ParseError::InvalidFormat {
+                message: format!("Line {} is empty", i + 1),
             });
         }
         parse_swift_chars(line, &format!("Line {}", i + 1))?;
